@@ -1236,8 +1236,9 @@ class Query(Runner):
 
 class SearchAfterExtractor:
     def __init__(self):
-        # extracts e.g. '[1609780186, "2"]' from '"sort": [1609780186, "2"]'
-        self.sort_pattern = re.compile(r"sort\":([^\]]*])")
+        # finds the start of e.g. '[1609780186, "2"]' in '"sort": [1609780186, "2"]'
+        self.sort_pattern = re.compile(r"sort\":\s*(\[)")
+        self.decoder = json.JSONDecoder()
 
     def __call__(self, response: BytesIO, get_point_in_time: bool, hits_total: Optional[int]) -> (dict, list):
         # not a class member as we would want to mutate over the course of execution for efficiency
@@ -1266,7 +1267,9 @@ class SearchAfterExtractor:
         index_of_last_sort = response_str.rfind('"sort"')
         last_sort_str = re.search(self.sort_pattern, response_str[index_of_last_sort::])
         if last_sort_str is not None:
-            return json.loads(last_sort_str.group(1))
+            # sort values may contain brackets themselves so only the JSON decoder can tell where the array ends
+            last_sort, _ = self.decoder.raw_decode(response_str, index_of_last_sort + last_sort_str.start(1))
+            return last_sort
         else:
             return None
 
